@@ -234,4 +234,12 @@ def main(tier, replay=None):
     })
     res.assumptions = ["range covers the planted token; for a missing association the site is the instantiated unit's name (DESIGN.md 4.0)",
                        "the site of `call matching no overload` is the callee; of a signal/variable mix-up the target"]
+    # the run directory is only kept for inspection when something was reported
+    if not res.violations:
+        for fn in os.listdir(d):
+            if fn.startswith(("bundle", "req_", "impl.out")):
+                try:
+                    os.remove(os.path.join(d, fn))
+                except OSError:
+                    pass
     return res.finish()
